@@ -976,9 +976,14 @@ NewMarks(l) ==
   \cup (IF a = "Push" /\ l.x.k = "mark" /\ osnap[l.vb] # NoSnap /\ \E i \in DOMAIN ctxs : ctxs[i].vb = l.vb /\ ctxs[i].gen = cgen
          THEN {"markerAfterDelivery"} ELSE {})
   \cup (IF a = "SaveRet" /\ ~l.ok THEN {"failedSave"} ELSE {})
+  \cup (IF a = "SaveLock" /\ spc[l.t] = "want" /\ sv[l.t].gen \in slock THEN {IF l.t = "main" THEN "finalSaveBlocked" ELSE "lockContention"} ELSE {})
+  \cup (IF a = "SaveLock" /\ l.t = "main" /\ spc[l.t] = "want" /\ sv[l.t].gen \in slock /\ "closeMidSave" \in marks
+         THEN {"finalSaveBlockedUnsaved"} ELSE {})
   \cup (IF a = "Crash" /\ \E t \in SaveThreads : spc[t] = "storing" /\ sv[t].wr # {} /\ sv[t].wr # Writable(t) THEN {"crashMidSave"} ELSE {})
   \cup (IF a = "CloseCall" /\ obsNil /\ balancing THEN {"closeDuringDelay"} ELSE {})
-  \cup (IF a = "CloseCall" /\ storing /\ flag THEN {"closeMidSave"} ELSE {})      \* unsaved progress outside the in-flight dump
+  \cup (IF a = "CloseCall" /\ \E t \in SaveThreads : spc[t] = "storing" /\ \E v \in VB : offs[v] # NoOff /\ sv[t].dump[v] # NoOff
+                                                                         /\ offs[v].seq > sv[t].dump[v].seq
+         THEN {"closeMidSave"} ELSE {})      \* progress acknowledged after the dump of the save in flight
   \cup (IF a = "CloseCall" /\ \E v \in VB : dpc[v] # "idle" THEN {"closeMidDelivery"} ELSE {})
   \cup (IF a = "CloseCall" /\ flag THEN {"closeWithUnsaved"} ELSE {})
   \cup (IF a = "End" /\ l.cause \in TransientCauses /\ offs[l.vb] # NoOff /\ offs[l.vb].seq > 0 THEN {"transientAfterProgress"} ELSE {})
@@ -986,7 +991,7 @@ NewMarks(l) ==
   \cup (IF a = "OpenRet" /\ l.res = "rb" THEN {"rollback"} ELSE {})
   \cup (IF a = "TimerFire" /\ l.i \in DOMAIN timers /\ timers[l.i].fn = "Rebalance" THEN {"rearmedTimer"} ELSE {})
   \cup (IF a = "Boot" /\ \E v \in VB : store[v] # NoOff /\ store[v].ss < store[v].seq /\ store[v].seq < store[v].se THEN {"resumeMidSnapshot"} ELSE {})
-  \cup (IF a = "LoadRet" /\ l.part /\ Exists /\ \E v \in RangeSet : store[v] = NoOff THEN {"partialLoad"} ELSE {})
+  \cup (IF a = "SeqNosRet" /\ l.ok /\ PartialLoad /\ ~Ahead THEN {"partialLoad"} ELSE {})
   \cup (IF a = "LoadRet" /\ ~l.ok THEN {"loadFails"} ELSE {})
   \cup (IF a = "SeqNosRet" /\ ~l.ok THEN {"seqnosFails"} ELSE {})
   \cup (IF a = "SeqNosRet" /\ l.ok /\ Ahead THEN {"checkpointAhead"} ELSE {})
